@@ -152,6 +152,7 @@ func runC17(t *testing.T, scAny any, trace bool) *Outcome {
 	sc := scAny.(*C17Scn)
 	o := &Outcome{HorizonOK: true}
 	var stopReturned, closeReturned, adminStarted simrt.Counter // simulated ns (0 = not yet)
+	var closeRetStamp simrt.Counter                            // scheduler stamp of the first Close/Unexport that returned nil (0 = none)
 	var stopTimedOut simrt.Counter
 	var maxStall time.Duration
 	for _, f := range sc.Stalls {
@@ -426,6 +427,9 @@ func runC17(t *testing.T, scAny any, trace bool) *Outcome {
 						}
 						if sc.Export {
 							closeReturned.Store(int64(now()) + 1)
+							if err == nil && closeRetStamp.Load() == 0 {
+								closeRetStamp.Store(simrt.Stamp())
+							}
 							// handles released, caches empty (a stalled request may still finish later: judged at quiescence)
 							if maxStall == 0 {
 								c17Released(o, w, op.Op, "on-return")
@@ -449,6 +453,18 @@ func runC17(t *testing.T, scAny any, trace bool) *Outcome {
 		if stopTimedOut.Load() == 0 {
 			if cc, mm := absnfs.VerifConnCounts(srv); cc != 0 || mm != 0 {
 				o.Vio("C17.connection-still-counted-after-end", "", "all clients closed their connections %v ago but connCount=%d tracked=%d", settle, cc, mm)
+			}
+		}
+		// once a Close/Unexport has returned, the exported server is down: no request is still being served,
+		// i.e. no backend call begins afterwards - also when another Close/Unexport was running concurrently.
+		// (A request stalled beyond the 5 s stop grace is the recorded known finding and is excluded.)
+		if crs := closeRetStamp.Load(); sc.Export && crs != 0 && maxStall < 4*time.Second {
+			o.Tick()
+			for _, c := range w.FS.CallsSince(0) {
+				if c.Start > crs {
+					o.Vio("C17.request-running-after-close", "op="+c.Op, "backend call %s(%q) began at stamp %d, after a Close/Unexport had returned nil at stamp %d: a request was still being served", c.Op, c.Path, c.Start, crs)
+					break
+				}
 			}
 		}
 		if sc.Export && closeReturned.Load() != 0 {
@@ -672,7 +688,7 @@ func shrinkC17(scAny any) []any {
 
 func init() {
 	Register(&Prop{ID: "C17", Level: "exploration", Race: true,
-		Rule: "one case = 2-6 clients opening connections at drawn instants from 3 addresses and each performing 1-6 of NULL / MNT+GETATTR / LOOKUP+READDIR calls, idle periods of 1 ms-700 s, closes and abrupt resets right after a call was sent; in 25% of runs 1-6 transient accept errors injected into the listener at drawn instants, against a server with MaxConnections 1-4 and IdleTimeout from {default (5 min), 1 ns, 1 ms, 200 ms, 1 s, 5 s, 40 s, 90 s} (in 20% of those with >= 1 s lowered to 200 ms at runtime, idle periods then start after the reaper has had one old check interval to notice), AllowedIPs empty or excluding one of the three client addresses (30%), started through NewServer+Listen or through AbsfsNFS.Export, 0-2 admin actors issuing Stop / Close / Unexport (also repeated and concurrently) at drawn instants, 0-2 backend calls stalled for 5 ms-7 s, every lock/channel/select/network interleaving decided by the seeded scheduler (random, PCT, sticky; 30% sequential), also built with -race; monitors: (a) connections answered at least once and closed on neither side never exceed MaxConnections, (b) a client outside AllowedIPs is never served and never stays counted; connCount equals the tracked set, stays within 0..MaxConnections, covers every served open connection and is 0 once all clients have closed, (c) an answered connection idle for more than 2*IdleTimeout+100 ms has been closed by the server; an active one is not dropped, (d) after Stop returns nil no goroutine created in server.go is alive, the count is 0, later calls are never answered and the listener refuses; Stop only times out when a backend call is stalled beyond its 5 s grace, (e) after Close/Unexport of an exported server the handle table and both caches are empty (on return when nothing is stalled, and at quiescence), repeating Stop/Close/Unexport returns nil, (f) no panic, no server goroutine alive at the end of the run, (g) bounded liveness after the faults: when nobody stopped the server a fresh connection is accepted and answered; non-trivial = at least two clients; distinct by event digest",
+		Rule: "one case = 2-6 clients opening connections at drawn instants from 3 addresses and each performing 1-6 of NULL / MNT+GETATTR / LOOKUP+READDIR calls, idle periods of 1 ms-700 s, closes and abrupt resets right after a call was sent; in 25% of runs 1-6 transient accept errors injected into the listener at drawn instants, against a server with MaxConnections 1-4 and IdleTimeout from {default (5 min), 1 ns, 1 ms, 200 ms, 1 s, 5 s, 40 s, 90 s} (in 20% of those with >= 1 s lowered to 200 ms at runtime, idle periods then start after the reaper has had one old check interval to notice), AllowedIPs empty or excluding one of the three client addresses (30%), started through NewServer+Listen or through AbsfsNFS.Export, 0-2 admin actors issuing Stop / Close / Unexport (also repeated and concurrently) at drawn instants, 0-2 backend calls stalled for 5 ms-7 s, every lock/channel/select/network interleaving decided by the seeded scheduler (random, PCT, sticky; 30% sequential), also built with -race; monitors: (a) connections answered at least once and closed on neither side never exceed MaxConnections, (b) a client outside AllowedIPs is never served and never stays counted; connCount equals the tracked set, stays within 0..MaxConnections, covers every served open connection and is 0 once all clients have closed, (c) an answered connection idle for more than 2*IdleTimeout+100 ms has been closed by the server; an active one is not dropped, (d) after Stop returns nil no goroutine created in server.go is alive, the count is 0, later calls are never answered and the listener refuses; Stop only times out when a backend call is stalled beyond its 5 s grace, (e) after Close/Unexport of an exported server the handle table and both caches are empty (on return when nothing is stalled, and at quiescence), repeating Stop/Close/Unexport returns nil, and once one of them has returned no backend call begins any more (no request is still being served, also under concurrent Close/Unexport calls), (f) no panic, no server goroutine alive at the end of the run, (g) bounded liveness after the faults: when nobody stopped the server a fresh connection is accepted and answered; non-trivial = at least two clients; distinct by event digest",
 		Gen:  genC17, New: func() any { return &C17Scn{} }, Run: runC17, Shrink: shrinkC17,
 		Real:    []string{"server.go accept loop, connection registry, idle reaper, Stop", "absnfs.go Close, operations.go Unexport/Export", "rpc/nfs handlers, worker pool, caches, handle table"},
 		Stubbed: seqStubbed})
